@@ -66,6 +66,32 @@ def statement_form(s):
     return s
 
 
+def _flag_loops_to_returns(block):
+    """`F = c0` / `for ..: [..] if t: F = c1; break` / `return F`   ==   `for ..: [..] if t: return c1` / `return c0`
+    (F a local written nowhere else and read only by that return; the `if` directly in the loop body, the loop without else)"""
+    k = 0
+    for i in range(len(block) - 2):
+        a, loop, ret = block[i], block[i + 1], block[i + 2]
+        if not (isinstance(a, ast.Assign) and len(a.targets) == 1 and isinstance(a.targets[0], ast.Name) and isinstance(a.value, ast.Constant)
+                and isinstance(loop, (ast.For, ast.While)) and not loop.orelse and isinstance(ret, ast.Return) and isinstance(ret.value, ast.Name) and ret.value.id == a.targets[0].id):
+            continue
+        f = a.targets[0].id
+        hits = [s for s in loop.body if isinstance(s, ast.If) and not s.orelse and len(s.body) == 2 and isinstance(s.body[1], ast.Break) and isinstance(s.body[0], ast.Assign)
+                and len(s.body[0].targets) == 1 and isinstance(s.body[0].targets[0], ast.Name) and s.body[0].targets[0].id == f and isinstance(s.body[0].value, ast.Constant)]
+        uses = [n for n in ast.walk(loop) if isinstance(n, ast.Name) and n.id == f]
+        breaks = [n for n in ast.walk(loop) if isinstance(n, ast.Break)]
+        if len(hits) != 1 or len(uses) != 1 or len(breaks) != 1:
+            continue
+        h = hits[0]
+        h.body = [ast.copy_location(ast.Return(value=h.body[0].value), h.body[0])]
+        ret.value = ast.copy_location(ast.Constant(value=a.value.value), ret.value)
+        block[i] = ast.copy_location(ast.Pass(), a)
+        k += 1
+    if k:
+        block[:] = [s for s in block if not isinstance(s, ast.Pass)] or [ast.Pass()]
+    return k
+
+
 def _dup_tail_return(ifnode, ret):
     """append a copy of `ret` to every branch of the if / elif / else chain that can fall out of it; True when no path falls out afterwards"""
     closed = True
@@ -89,6 +115,8 @@ def flatten_block(stmts):
         stmts = list(stmts)
         if _dup_tail_return(stmts[-2], stmts[-1]):
             stmts = stmts[:-1]
+    stmts = list(stmts)
+    _flag_loops_to_returns(stmts)
     out = []
     for s in stmts:
         for f in ('body', 'orelse', 'finalbody'):
@@ -712,8 +740,20 @@ def reshape_conditionals(fn, r, stats, key):
     def surplus(x):     # the current function has more statements of this shape than its reference
         return cur[dig(x)] > have[dig(x)]
 
+    strict = [True]
+    refnames = {}
+    for d_, names_ in r.get('stmts', []):
+        refnames.setdefault(d_, []).append(tuple(names_))
+
     def wanted(x):      # ... and fewer of that one
-        return cur[dig(x)] < have[dig(x)]
+        if not cur[dig(x)] < have[dig(x)]:
+            return False
+        if strict[0]:
+            # first pass: digests are name-blind (`if lx == 0` and `if c == 0` are one shape), so only rewrites that also land on the
+            # reference's own names are accepted; what is left over is tried again without this preference
+            h_ = _header(x)
+            return h_ is not None and tuple(stmt_blind(h_, loc)[1]) in refnames.get(dig(x), ())
+        return True
 
     def conj(t):
         return list(t.values) if isinstance(t, ast.BoolOp) and isinstance(t.op, ast.And) else [t]
@@ -952,6 +992,8 @@ def reshape_conditionals(fn, r, stats, key):
             out.append(s)
             i += 1
         return out
+    fn.body = blk(fn.body)
+    strict[0] = False
     fn.body = blk(fn.body)
     # at the very end of the function, `if not c: X` (then fall off the end) == `if c: return` / X
     last = fn.body[-1] if fn.body else None
